@@ -73,6 +73,19 @@ pub fn gen(seed: u64, n: usize, _tier: &str) -> Vec<Case> {
         // now and then one client works in database 1
         if g.r.chance(1, 6) { let c = 1 + g.r.below(nc as u64) as i64; ops.push(bsend_op(c, &[cmdv(&[b"SELECT", b"1"])])); ops.push(brecv_op(c)); }
         let mut sleeps = 0; let mut closes = 0; let mut since = 0;
+        // one history in eight starts with two registrations that expire in the SAME deadline scan (a repeated key:
+        // the scans run every iteration, so two clients never expire together) in front of a client that waits
+        // longer: get_expired_clients removes several entries of one queue by index
+        if id % 8 == 5 {
+            let k = g.key();
+            let op = if g.r.chance(1, 2) { b"BLPOP".to_vec() } else { b"BRPOP".to_vec() };
+            ops.push(bsend_op(1, &[cmdo(&[op.clone(), k.clone(), k.clone(), b"0.3".to_vec()])]));
+            ops.push(bsend_op(2, &[cmdo(&[op.clone(), k.clone(), if g.r.chance(1, 2) { b"0".to_vec() } else { b"0.9".to_vec() }])]));
+            if nc >= 3 && g.r.chance(1, 2) { ops.push(bsend_op(3, &[cmdo(&[op, k.clone(), b"0".to_vec()])])); }
+            ops.push(bsleep_op(GRID)); sleeps += 1;
+            ops.push(brecv_op(1)); ops.push(brecv_op(2));
+            ops.push(vec![b("BDUMP"), i(0)]);
+        }
         let steps = 8 + g.r.below(28);
         for _ in 0..steps {
             let c = 1 + g.r.below(nc as u64) as i64;
